@@ -1871,7 +1871,9 @@ impl<T: PPGEvaluatorStrategy> PPGEvaluator<T> {
             .neighbors_directed(node_idx, Direction::Incoming)
             .collect();
         let mut not_done = 0;
-        let mut invalidated = false;
+        // a job without a record of its own output (it failed or was aborted last time, which
+        // drops that record but keeps the records of its inputs) can not be validated
+        let mut invalidated = !history.contains_key(&jobs[node_idx].job_id);
         for upstream_idx in upstreams {
             if jobs[upstream_idx as usize].state.is_finished()
                 || (jobs[upstream_idx as usize].state
